@@ -108,3 +108,12 @@ claim("C09", "call-graph reachability + panic-site inventory; interprocedural ty
       DECIDES + " Termination of the recovery loops, stack depth, and totality of semantic/lowering diagnostics on garbage are not decided.",
       "trusted: rustc MIR, fact dumper; calls that take &mut Parser outside the non-consuming list are assumed to consume; class-U inventory rows carry no safety claim",
       "DESIGN.md section 4, C09")
+claim("C10", "field-write discipline + linear-use dataflow + who-may-call rules on MIR; width/children provenance over all green-node constructors",
+      "No API of the lexer, parser or green tree can drop, duplicate or reorder source text: the lexer cursor fields are written only in new / "
+      "take / consume_text_span with the prescribed values; every consumed span becomes token text; Parser::advance is called only by take_raw "
+      "and unglue and every field of a taken terminal reaches add_trivia_to_terminal or the pending trivia; pending trivia is append-only and "
+      "taken only when attached (prepended to the terminal's own leading trivia); every GreenNodeDetails::Node has width = sum over exactly "
+      "the children it stores." + DECIDES + " That the parser's choice of where to attach trivia preserves order in every recovery scenario "
+      "beyond these APIs is not decided.",
+      "trusted: rustc MIR, fact dumper; assumes TextSpan::take slices exactly the addressed text and Vec::extend/push append in order",
+      "DESIGN.md section 4, C10")
